@@ -20,7 +20,8 @@ def observe(name, sd, area, seed=None, vis=None, vis_kwargs=None):
     else:
         f = envs.mk_obs(name, area)
     rng = make_rng(seed) if seed is not None else None
-    return objs.canon_state(f(objs.build_state(sd), rng=rng))
+    state = objs.build_state(sd) if isinstance(sd, dict) else sd  # a prebuilt State is observed as is (same object)
+    return objs.canon_state(f(state, rng=rng))
 
 
 def shown(od):
